@@ -4,8 +4,18 @@
 (* per kind of step, and the C10 properties as invariants of its own       *)
 (* behaviours.  LexMC instantiates it over all short texts of a small      *)
 (* alphabet and over small indentation texts.                              *)
+(*                                                                         *)
+(* The documented pattern table is read from the JSON file the harness      *)
+(* derives from doc/grammar.md.  It is bound by INSTANCE substitution of    *)
+(* root-level constant definitions (Table, Cands), which TLC evaluates once;*)
+(* a cfg override `Patterns <- Def' would be re-evaluated at every use.     *)
 (***************************************************************************)
-EXTENDS Lex, TLC
+EXTENDS Integers, Sequences, FiniteSets, TLC, Json, IOUtils
+
+Table == JsonDeserialize(IOEnv.LEX_TABLE)
+L0 == INSTANCE Lex WITH Patterns <- Table.patterns, AsciiCand <- <<>>
+Cands == L0!CandTuple(0)
+INSTANCE Lex WITH Patterns <- Table.patterns, AsciiCand <- Cands
 
 VARIABLES text,      \* the input (never changes)
           lines,     \* its lines
